@@ -27,6 +27,128 @@ def _dict_literal(fn):
     return None
 
 
+def _dict_from_table(pm, cname, fn):
+    """the dict literal that a loop / dict comprehension over a class-level table of constants builds:
+    `for cat, attr in self.TABLE: d[cat] = <expr(cat, attr)>` (with `if cat == "X": … else: …` decided per row) or
+    `{cat: <expr> for cat, attr in self.TABLE}`; helper calls `self.h(consts…)` with a single return are read as that
+    return expression. None if fn is not of that form."""
+    from ..astutil import substitute, inline_call_expr, fold_static, clone, set_parents
+
+    def table_rows(it):
+        if isinstance(it, (ast.Tuple, ast.List)):
+            t = it                     # (the canonical model puts a literal constant table where it is used)
+        elif isinstance(it, ast.Attribute) and norm(it.value) in ("self", "cls", cname):
+            kc, t = pm._class_const(cname, it.attr)
+        elif isinstance(it, ast.Name):
+            t = None
+            for m, (r, tree, _) in pm.modules.items():
+                for st in tree.body:
+                    if isinstance(st, ast.Assign) and isinstance(st.targets[0], ast.Name) and st.targets[0].id == it.id:
+                        t = st.value
+        else:
+            t = None
+        if not isinstance(t, (ast.Tuple, ast.List)):
+            return None
+        rows = []
+        for r in t.elts:
+            if isinstance(r, (ast.Tuple, ast.List)) and all(isinstance(x, ast.Constant) for x in r.elts):
+                rows.append(list(r.elts))
+            elif isinstance(r, ast.Constant):
+                rows.append([r])
+            else:
+                return None
+        return rows
+
+    def bind(target, row):
+        names = [target] if isinstance(target, ast.Name) else (list(target.elts) if isinstance(target, ast.Tuple) else None)
+        if names is None or len(names) != len(row) or not all(isinstance(n, ast.Name) for n in names):
+            return None
+        return {n.id: c for n, c in zip(names, row)}
+
+    def resolve(v, m):
+        v = substitute(v, m)
+        for _ in range(2):
+            if isinstance(v, ast.Call):
+                inl = inline_call_expr(v, pm.helper_finder(cname))
+                if inl is not None:
+                    v = inl
+        holder = ast.Expr(value=v)
+        fold_static(holder)
+        return holder.value
+
+    def const_test(t, m):
+        t = substitute(t, m)
+        if isinstance(t, ast.Compare) and len(t.ops) == 1 and isinstance(t.left, ast.Constant) \
+                and isinstance(t.comparators[0], ast.Constant):
+            eq = t.left.value == t.comparators[0].value
+            if isinstance(t.ops[0], ast.Eq):
+                return eq
+            if isinstance(t.ops[0], ast.NotEq):
+                return not eq
+        if isinstance(t, ast.Compare) and len(t.ops) == 1 and isinstance(t.left, ast.Constant) \
+                and isinstance(t.ops[0], (ast.In, ast.NotIn)) and isinstance(t.comparators[0], (ast.Tuple, ast.List, ast.Set)) \
+                and all(isinstance(x, ast.Constant) for x in t.comparators[0].elts):
+            r = t.left.value in [x.value for x in t.comparators[0].elts]
+            return r if isinstance(t.ops[0], ast.In) else not r
+        return None
+    keys, values = [], []
+    for n in ast.walk(fn):
+        if isinstance(n, ast.DictComp) and len(n.generators) == 1 and not n.generators[0].ifs:
+            rows = table_rows(n.generators[0].iter)
+            if rows is None:
+                continue
+            for row in rows:
+                m = bind(n.generators[0].target, row)
+                if m is None:
+                    return None
+                k = substitute(n.key, m)
+                if not isinstance(k, ast.Constant):
+                    return None
+                keys.append(k)
+                values.append(resolve(n.value, m))
+            break
+        if isinstance(n, ast.For):
+            rows = table_rows(n.iter)
+            if rows is None:
+                continue
+
+            def stores(stmts, m):
+                out = []
+                for st in stmts:
+                    if isinstance(st, ast.If):
+                        c = const_test(st.test, m)
+                        if c is None:
+                            return None
+                        sub = stores(st.body if c else st.orelse, m)
+                        if sub is None:
+                            return None
+                        out += sub
+                    elif isinstance(st, ast.Assign) and isinstance(st.targets[0], ast.Subscript):
+                        k = substitute(st.targets[0].slice, m)
+                        if not isinstance(k, ast.Constant):
+                            return None
+                        out.append((k, resolve(st.value, m)))
+                    else:
+                        return None
+                return out
+            for row in rows:
+                m = bind(n.target, row)
+                if m is None:
+                    return None
+                got = stores(n.body, m)
+                if got is None:
+                    return None
+                for k, v in got:
+                    keys.append(k)
+                    values.append(v)
+            break
+    if len(keys) < 3:
+        return None
+    d = ast.Dict(keys=keys, values=values)
+    ast.copy_location(d, fn)
+    return set_parents(d)
+
+
 def _entry(expr):
     """category value expression -> (collection text, attribute, dedup: 'by-id' | 'none' | 'n/a')"""
     if isinstance(expr, ast.DictComp):
@@ -87,6 +209,8 @@ def r_agg(E):
         if fn is None:
             raise AnalysisError(f"System.{d} vanished")
         lit = _dict_literal(fn)
+        if lit is None:
+            lit = _dict_from_table(pm, "System", fn)
         if lit is None:
             res.undecided.append(f"System.{d}: no literal category dict")
             continue
@@ -368,16 +492,70 @@ def _table_reader_paths(pm, rel, reader):
     if not isinstance(table, (ast.List, ast.Tuple)):
         return None
     finder = pm.function_finder(rel)
+
+    def single_return(f):
+        body = [b for b in f.body if not (isinstance(b, ast.Expr) and isinstance(b.value, ast.Constant))]
+        return body[0].value if len(body) == 1 and isinstance(body[0], ast.Return) and body[0].value is not None else None
+
+    def unroll_all_any(t):
+        """all(<elt> for x in (c1, c2)) over a literal tuple of constants -> <elt[c1]> and <elt[c2]> (any: or)"""
+        class T(ast.NodeTransformer):
+            def visit_Call(self, node):
+                self.generic_visit(node)
+                if isinstance(node.func, ast.Name) and node.func.id in ("all", "any") and len(node.args) == 1 \
+                        and isinstance(node.args[0], (ast.GeneratorExp, ast.ListComp)) and len(node.args[0].generators) == 1:
+                    g = node.args[0].generators[0]
+                    if isinstance(g.iter, (ast.Tuple, ast.List)) and not g.ifs and isinstance(g.target, ast.Name) \
+                            and all(isinstance(x, ast.Constant) for x in g.iter.elts) and g.iter.elts:
+                        vals = [substitute(node.args[0].elt, {g.target.id: c}) for c in g.iter.elts]
+                        if len(vals) == 1:
+                            return vals[0]
+                        return ast.copy_location(ast.BoolOp(op=ast.And() if node.func.id == "all" else ast.Or(), values=vals), node)
+                return node
+        return T().visit(t)
+
+    def pred_test(pe, d):
+        """the test a predicate of the table applies to the dict d, as an expression over d; None if not understood"""
+        if isinstance(pe, ast.Lambda) and len(pe.args.args) == 1:
+            return substitute(pe.body, {pe.args.args[0].arg: d})
+        if isinstance(pe, ast.Name):
+            f = finder(pe.id)
+            r = single_return(f) if f is not None and len(f.args.args) == 1 else None
+            return substitute(r, {f.args.args[0].arg: d}) if r is not None else None
+        if isinstance(pe, ast.Call) and isinstance(pe.func, ast.Name) and not pe.keywords:
+            # a predicate factory: def has_all_keys(*keys): def predicate(d): return <expr>; return predicate
+            f = finder(pe.func.id)
+            if f is None:
+                return None
+            body = [b for b in f.body if not (isinstance(b, ast.Expr) and isinstance(b.value, ast.Constant))]
+            if not (len(body) == 2 and isinstance(body[0], ast.FunctionDef) and isinstance(body[1], ast.Return)
+                    and isinstance(body[1].value, ast.Name) and body[1].value.id == body[0].name
+                    and len(body[0].args.args) == 1):
+                return None
+            r = single_return(body[0])
+            if r is None or not all(isinstance(a, ast.Constant) for a in pe.args):
+                return None
+            m = {body[0].args.args[0].arg: d}
+            ps = [a.arg for a in f.args.args]
+            for p_, a in zip(ps, pe.args):
+                m[p_] = a
+            if f.args.vararg is not None:
+                m[f.args.vararg.arg] = ast.Tuple(elts=list(pe.args[len(ps):]), ctx=ast.Load())
+            elif len(pe.args) != len(ps):
+                return None
+            return unroll_all_any(substitute(r, m))
+        return None
     entries = []
     for e in table.elts:
-        if not (isinstance(e, ast.Tuple) and len(e.elts) == 2 and isinstance(e.elts[0], ast.Lambda)
-                and isinstance(e.elts[1], ast.Name) and len(e.elts[0].args.args) == 1):
+        if not (isinstance(e, ast.Tuple) and len(e.elts) == 2 and isinstance(e.elts[1], ast.Name)):
             return None
         h = finder(e.elts[1].id)
         if h is None or not h.args.args:
             return None
         d = ast.Name(id=dparam, ctx=ast.Load())
-        test = substitute(e.elts[0].body, {e.elts[0].args.args[0].arg: d})
+        test = pred_test(e.elts[0], d)
+        if test is None:
+            return None
         body = [substitute_stmt(b, {h.args.args[0].arg: d}) for b in h.body]
         entries.append((test, body))
     paths = []
@@ -570,6 +748,18 @@ def r_json_upg(E):
                         if isinstance(st, ast.Assign) and call.args and norm(st.targets[0]) == norm(call.args[0]) \
                                 and rets and all(r.value is not None and norm(r.value) == norm(a.targets[0]) for r in rets):
                             loop_ok = True
+    # the same fold written with reduce: d = reduce(lambda acc, v: VERSION_UPGRADE_HANDLERS[v](acc), range(a, b), d)
+    for n in nodes_through_helpers(j, find_function=pm.function_finder(rel2), depth=2):
+        if isinstance(n, ast.Assign) and isinstance(n.value, ast.Call) and norm(n.value.func) in ("reduce", "functools.reduce") \
+                and len(n.value.args) == 3 and isinstance(n.value.args[0], ast.Lambda) and len(n.value.args[0].args.args) == 2:
+            lam, rng, init = n.value.args
+            acc, ver = [a.arg for a in lam.args.args]
+            b = lam.body
+            if isinstance(b, ast.Call) and isinstance(b.func, ast.Subscript) and norm(b.func.value) == "VERSION_UPGRADE_HANDLERS" \
+                    and norm(b.func.slice) == ver and [norm(a) for a in b.args] == [acc] \
+                    and isinstance(rng, ast.Call) and norm(rng.func) == "range" and len(rng.args) == 2 \
+                    and norm(init) == norm(n.targets[0]):
+                loop_ok = True
     if not loop_ok:
         res.findings.append(Finding("R-JSON-UPG", "loader loop", "json_to_system no longer applies the handlers for every "
                                     "version between the file's major and the current one", rel2, j.lineno, "json_to_system"))
